@@ -363,12 +363,21 @@ type c08Mut struct {
 	Data []byte
 }
 
-func c08Masks() []byte {
-	if vrep.Thorough() {
-		return []byte{0x01, 0x02, 0x04, 0x08, 0x10, 0x20, 0x40, 0x80, 0xff}
+// c08Masks: the XOR masks applied at every position of an artefact of n bytes. quick: every single-bit flip
+// plus the full complement; thorough: all 255 non-zero masks (= every possible substitution of every byte) for
+// artefacts up to 300 bytes (everything except RSA material), the quick set for longer ones.
+func c08Masks(n int) []byte {
+	if vrep.Thorough() && n <= 300 {
+		m := make([]byte, 0, 255)
+		for x := 1; x < 256; x++ {
+			m = append(m, byte(x))
+		}
+		return m
 	}
-	return []byte{0x01, 0x80, 0xff}
+	return []byte{0x01, 0x02, 0x04, 0x08, 0x10, 0x20, 0x40, 0x80, 0xff}
 }
+
+const c08MaskBound = "quick: 01 02 04 08 10 20 40 80 ff; thorough: all 255 masks for artefacts <= 300 bytes, the quick set for longer (RSA) ones"
 
 // c08ByteMuts: every single-byte XOR edit (masks above) at every position, every truncation (every proper
 // prefix, the empty string included), trailing garbage; thorough adds every single-byte deletion and
@@ -376,7 +385,7 @@ func c08Masks() []byte {
 func c08ByteMuts(orig []byte, f func(m c08Mut) bool) bool {
 	cp := func() []byte { return append(make([]byte, 0, len(orig)+1), orig...) }
 	for pos := range orig {
-		for _, mask := range c08Masks() {
+		for _, mask := range c08Masks(len(orig)) {
 			d := cp()
 			d[pos] ^= mask
 			if !f(c08Mut{"xor", fmt.Sprintf("xor@%d^%02x", pos, mask), d}) {
